@@ -6,10 +6,9 @@
   functor (into every partial strict monoidal algebra `SMC`), exact refusal for adjacent moves,
   three-outcome theorem for all `(i, j)` (never an axiom error), exact index refusal, boxes are
   permuted by adjacent transpositions.
-  Not proved (full statement kept below as `Prop`, checked by the oracle on every run):
-  `move_spec` — the closed form of the box list after a non-adjacent move.
+  and the closed form of the box list after a general move (`interchange_move_spec`).
 -/
-import Proofs.Interchange
+import Proofs.Move
 
 namespace DV.C05
 open DV
@@ -65,12 +64,17 @@ theorem interchange_index_refusal (d : Diagram) (i j : Int) (left : Bool) (hd : 
       ¬ (0 ≤ i ∧ i < (d.boxes.length : Int)) ∨ ¬ (0 ≤ j ∧ j < (d.boxes.length : Int)) :=
   Diagram.interchange_index_iff hd
 
-/-- NOT PROVED (statement only; checked by the oracle on the real code on every run): closed form
-    of the box list after a general move — box `i` lands at `j`, the others keep their order. -/
-def move_spec : Prop :=
-  ∀ (d d' : Diagram) (i j : Nat) (left : Bool), d.WF →
-    d.interchange i j left = .ok d' →
-    ∀ b, d.boxes[i]? = some b → d'.boxes = (d.boxes.eraseIdx i).insertIdx j b
+/-- Closed form for ALL `(i, j)`: box `i` lands at position `j`, every other box keeps its
+    relative order (`A ++ [a] ++ M ++ R ↦ A ++ M ++ [a] ++ R` when moving down, and the mirror
+    image when moving up). -/
+theorem interchange_move_spec (d d' : Diagram) (i j : Int) (left : Bool) (hd : d.WF)
+    (h : d.interchange i j left = .ok d') :
+    (i = j ∧ d' = d) ∨
+    (i < j ∧ ∃ A M R a, d.boxes = A ++ a :: (M ++ R) ∧ (A.length : Int) = i ∧
+        (M.length : Int) = j - i ∧ d'.boxes = A ++ M ++ a :: R) ∨
+    (j < i ∧ ∃ L M R a, d.boxes = L ++ M ++ a :: R ∧ (L.length : Int) = j ∧
+        (M.length : Int) = i - j ∧ d'.boxes = L ++ a :: (M ++ R)) :=
+  Diagram.interchange_boxes hd h
 
 /-! Non-vacuity -/
 private def x : Ob := ⟨"x", 0⟩
